@@ -31,6 +31,8 @@ Attr(ns, q, l, v) == [ns |-> ns, q |-> q, l |-> l, v |-> v]
 PlainA(q, v) == Attr("", q, q, v)
 
 \* canonical attribute of the projection (harness/treeproj.py): <<namespace prefix, local name, value>>
+\* ASSUMED (bound): no plain attribute name starts with "{" - ElementTree's Clark notation cannot tell the plain name "{x}y"
+\* from local name y in namespace x, so such inputs are outside the compared set (harness/props/c04.py clark_ambiguous)
 CanonAttr(at) == IF at.ns = "" THEN <<"", at.q, at.v>> ELSE <<at.ns, at.l, at.v>>
 RECURSIVE CanonAttrs(_)
 CanonAttrs(as) == IF as = <<>> THEN <<>> ELSE <<CanonAttr(as[1])>> \o CanonAttrs(Tail(as))
